@@ -555,6 +555,17 @@ CATALOGUE = [
     ("A(i) = B(i) * C(i) + D(i)", {"A": "d", "B": "s", "C": "s", "D": "d"}),
     ("A(i,j) = (B(i,j) + C(i,j)) * D(i,j) + E(i,j)", {"A": "ds", "B": "ds", "C": "ds", "D": "ds", "E": "ds"}),
     ("A(i,j) = B(i,j) * C(i,j) - D(j)", {"A": "dd", "B": "ss", "C": "ss", "D": "d"}),
+    # a sum or a deeper sparse loop directly below the last compressed output level: coordinates that
+    # are visited although nothing is written below them (seeded change B-C04-1)
+    ("A(i) = B(i,j) * C(j) + D(i)", {"A": "s", "B": "ss", "C": "d", "D": "s"}),
+    ("A(i) = B(i,j) * C(j) + D(i)", {"A": "s", "B": "ss", "C": "s", "D": "s"}),
+    ("A(i) = B(i,j) * C(j) - D(i)", {"A": "s", "B": "ds", "C": "s", "D": "s"}),
+    ("A(i,j) = B(i,j,k) * C(k)", {"A": "ss", "B": "sds", "C": "s"}),
+    ("A(i,j) = B(i,j,k) * C(k) + D(i,j)", {"A": "ss", "B": "sss", "C": "s", "D": "ss"}),
+    ("A(i) = B(i,j,k) * C(j) * D(k)", {"A": "s", "B": "sds", "C": "d", "D": "s"}),
+    # contraction inside a sum with operands of different depth at the outer index (seeded D-C15-1/2)
+    ("A(i) = B(i,j) * C(i)", {"A": "d", "B": "ss", "C": "s"}),
+    ("A(i) = B(i,j) + C(i)", {"A": "d", "B": "ss", "C": "s"}),
     # problems the generator refuses today (NotImplementedError / no kernel): counted as skipped,
     # but exercised as soon as a change makes them compile
     ("A(i,j,k) = B(j,i,k)", {"A": "dds", "B": "sds"}),
